@@ -70,7 +70,7 @@ func init() {
 		Rule:        "inputs: W6b (per Eisel-Lemire table row -348..347: decimals of 17-19 digits straddling an exact float midpoint), W6c (random floats x exact midpoint expansion truncated to 15..770 digits, +-1 in the last place, six spellings, >800-digit sticky tails), W6e (every exponent -400..400), W6s (overflow threshold at every length, subnormal halves, zeros, long exponents, classic hard cases); each literal with followers/whitespace through ReadFloat64, DecodeFloat64 and ReadValue; the generated families are sharded by generator index and de-duplicated by literal hash within each shard (cross-shard duplicates are negligible for these long literals); non-trivial = more than 15 significant digits or an exponent part",
 		Assumptions: append([]string{"oracle: strconv.ParseFloat; a 2% sample is re-derived with exact big.Rat arithmetic (ties-to-even) and a disagreement makes the run inconclusive; literals whose integer part has more than 800 digits are decided by the exact big.Rat computation alone, because strconv itself is wrong there"}, commonAssumptions...),
 		MinEvals:    800000,
-		MinCounters: map[string]int64{"digits_17_to_19": 100000, "digits_20_to_800": 50000, "digits_over_800": 500, "expect_range_error": 1000, "expect_subnormal": 2000, "oracle_rechecked_with_exact_rational_arithmetic": 3000, "oracle_is_exact_rational_arithmetic_because_integer_part_exceeds_800_digits": 300}})
+		MinCounters: map[string]int64{"digits_17_to_19": 100000, "digits_20_to_800": 50000, "digits_over_800": 500, "expect_range_error": 1000, "expect_subnormal": 2000, "oracle_rechecked_with_exact_rational_arithmetic": 3000, "oracle_is_exact_rational_arithmetic_where_strconv_is_known_to_be_wrong": 300}})
 	register(&Spec{ID: "C05", Run: RunC05, Extra386Shards: 4,
 		Rule:        "inputs: W6a (every value within a window of each type bound and each 18/19/20-digit switch-over point x 3 whitespace prefixes x 21 followers, hand shapes, random digit strings of 1-40 digits) and the W1 byte sweep of top-level tokens; each through all six Read* and six Decode* integer functions against a math/big model, once on the native 64-bit build and once more on a GOARCH=386 build of checker and library (int and uint are 32 bits wide there and take other code paths; the notes say whether that pass ran); distinct by input hash per build; non-trivial = input starts (after whitespace and optional '-') with a digit",
 		Assumptions: commonAssumptions, MinEvals: 3000000,
